@@ -56,10 +56,21 @@ SigPart(i) == SigCasesOf({T \in Templates : T.t % 4 = i})     \* the same univer
 Rep(c, n) == [i \in 1..n |-> c]
 Asc(n)    == [i \in 1..n |-> (i * 37) % 256]
 KeyBodies == {Rep(255, 3), Rep(255, 4), Asc(5), Asc(8), Rep(255, 64), Rep(255, 65), Asc(33)}
-KeyRdatas == {<<1, 1, 3, a>> \o b : a \in {1, 8, 13, 15}, b \in KeyBodies}
+(* RDATAs constructed arithmetically so that the octet sum S of RFC 4034 App. B lands where the
+   single "ac += (ac >> 16) & 0xFFFF; ac & 0xFFFF" differs from an end-around-carry fold:
+   (S % 65536) + (S \div 65536) >= 65536.  S = 1FFFF (even / odd length, algorithms 8 / 13),
+   2FFFE, 3FFFD, and 1FFFE as the neighbour where both folds agree. *)
+CarryKeys == { <<1, 1, 3, 8, 255, 255, 251, 247>>,                 \* S = 1FFFF, 8 octets
+               <<1, 1, 3, 8, 255, 255, 0, 247, 251>>,              \* S = 1FFFF, 9 octets (odd tail is a high half)
+               <<1, 1, 3, 13, 255, 255, 251, 242>>,                \* S = 1FFFF, algorithm 13
+               <<1, 1, 3, 8, 255, 255, 255, 255, 251, 247>>,       \* S = 2FFFE
+               <<1, 1, 3, 8, 255, 255, 255, 255, 255, 255, 0, 247, 251>>,   \* S = 3FFFD, 13 octets
+               <<1, 1, 3, 8, 255, 255, 251, 246>> }                \* S = 1FFFE: no second carry
+KeySum(rd) == KtSum(rd, 1, Len(rd))
+KeyRdatas == {<<1, 1, 3, a>> \o b : a \in {1, 8, 13, 15}, b \in KeyBodies} \cup CarryKeys
 KeyCases  == {[k |-> "keytag", rd |-> r] : r \in KeyRdatas}
 DsCases   == {[k |-> "ds", owner |-> o, key |-> r, dt |-> d] :
-                 o \in NamePats, r \in {x \in KeyRdatas : Thorough \/ Len(x) \in {8, 9, 69}}, d \in {1, 2, 4}}
+                 o \in NamePats, r \in {x \in KeyRdatas : Thorough \/ Len(x) \in {8, 9, 69} \/ (x \in CarryKeys /\ Len(x) <= 9)}, d \in {1, 2, 4}}
 
 (* ---- NSEC3 ---- *)
 Salts == {<<>>, <<171>>, <<1, 2, 3, 4, 65, 90, 97, 255>>}
@@ -78,6 +89,7 @@ NodeName(k) == CASE k = "apex" -> Org
                  [] k = "C"    -> << <<67>> >> \o Org                   \* upper-case owner: sorts after b.a
                  [] k = "d"    -> << <<100>> >> \o Org                  \* delegation
                  [] k = "gd"   -> << <<103>>, <<100>> >> \o Org         \* glue below it
+                 [] k = "gD"   -> << <<71>>, <<68>> >> \o Org           \* glue G.D: spelled in another case than the cut d
                  [] k = "hgd"  -> << <<104>>, <<103>>, <<100>> >> \o Org
                  [] k = "xy"   -> << <<120>>, <<121>> >> \o Org         \* y is an empty non-terminal
                  [] k = "ww"   -> << <<42>>, <<119>> >> \o Org          \* wildcard
@@ -100,22 +112,32 @@ RRsOf(k, tag) ==
       [] tag = "CNAME" -> <<RR(k, 5, TTL300, << <<"n", Pmix>> >>)>>
       [] tag = "ZONEMD" -> <<RR(k, 63, TTL300, << <<"b", ZmdBody>> >>)>>
       [] tag = "SIGZMD" -> <<RR(k, 46, TTL300, << <<"b", SigBody(63)>>, <<"n", Org>>, <<"b", <<65, 90>> >> >>)>>
+      [] tag = "SIGNS"  -> <<RR(k, 46, TTL300, << <<"b", SigBody(2)>>, <<"n", Org>>, <<"b", <<65, 90>> >> >>)>>
+      [] tag = "SIGTXT" -> <<RR(k, 46, TTL300, << <<"b", SigBody(16)>>, <<"n", Org>>, <<"b", <<65, 90>> >> >>)>>
+      [] tag = "SIGA"   -> <<RR(k, 46, TTL300, << <<"b", SigBody(1)>>, <<"n", Org>>, <<"b", <<65, 90>> >> >>)>>
       [] tag = "SIGSOA" -> <<RR(k, 46, TTL300, << <<"b", SigBody(6)>>, <<"n", Org>>, <<"b", <<65, 90>> >> >>)>>
 Menu(k) ==
     CASE k = "apex" -> {<<"SOA", "NS">>, <<"NS2", "TXT", "SOA", "A">>}
       [] k = "a"    -> {<<"A">>, <<"TXT", "A2">>, <<"CNAME">>}
       [] k = "d"    -> {<<"NS">>, <<"DS", "NS">>, <<"A", "NS">>, <<"TXT", "NS2", "A", "DS">>}
       [] k = "gd"   -> IF Thorough THEN {<<"A">>, <<"A", "NS">>} ELSE {<<"A">>}
+      [] k = "gD"   -> {<<"A">>}
       [] k = "ba"   -> {<<"TXT">>}
       [] k = "C"    -> {<<"A">>}
       [] k = "hgd"  -> {<<"A">>}
       [] k = "xy"   -> {<<"A">>}
       [] k = "ww"   -> {<<"TXT">>}
-Optional == IF Thorough THEN {"a", "ba", "C", "d", "gd", "hgd", "xy", "ww"} ELSE {"a", "ba", "C", "d", "gd", "xy", "ww"}
-NodeOrder == <<"ww", "d", "a", "hgd", "apex", "xy", "gd", "C", "ba">>     \* deliberately not canonical
-ZmdExtras == {<<>>, <<<<"apex", "ZONEMD">>>>, <<<<"apex", "ZONEMD">>, <<"apex", "SIGZMD">>, <<"apex", "SIGSOA">>>>,
-              <<<<"ba", "ZONEMD">>, <<"apex", "SIGSOA">>>>}
+Optional == IF Thorough THEN {"a", "ba", "C", "d", "gd", "gD", "hgd", "xy", "ww"} ELSE {"a", "ba", "C", "d", "gd", "gD", "xy", "ww"}
+NodeOrder == <<"ww", "gD", "d", "a", "hgd", "apex", "xy", "gd", "C", "ba">>     \* deliberately not canonical
+(* the other-case glue only together with its cut and instead of the same-case glue (bounds the count) *)
+NodeSetOk(X) == "gD" \in X => ("d" \in X /\ "gd" \notin X)
+(* several RRSIG rdatasets (different covered types) at one owner, inserted in either order: RFC 8976 3.3.1 orders
+   RRs of one owner and type by canonical RDATA, and RRSIG RDATA starts with the type covered *)
+SigOrderExtras == {<<<<"apex", "SIGSOA">>, <<"apex", "SIGNS">>>>, <<<<"apex", "SIGNS">>, <<"apex", "SIGSOA">>>>,
+                   <<<<"ba", "SIGTXT">>, <<"apex", "SIGSOA">>, <<"ba", "SIGA">>, <<"apex", "SIGA">>>>}
 
+ZmdExtras == {<<>>, <<<<"apex", "ZONEMD">>>>, <<<<"apex", "ZONEMD">>, <<"apex", "SIGZMD">>, <<"apex", "SIGSOA">>>>,
+              <<<<"ba", "ZONEMD">>, <<"apex", "SIGSOA">>>>} \cup SigOrderExtras
 NodeRRs(k, m) == Flat([i \in 1..Len(m) |-> RRsOf(k, m[i])])
 ZoneOf(S, pick, extra) ==
     [origin |-> Org,
@@ -132,6 +154,7 @@ PicksOf(S) ==
 MaxNodes == IF Thorough THEN 6 ELSE 5
 ZoneCases ==
     UNION {{[k |-> "zone", zmd |-> Len(e), z |-> ZoneOf(S, f, e)] :
-                f \in PicksOf(S), e \in {x \in ZmdExtras : x = <<>> \/ Cardinality(S) <= 2}} :
-           S \in {X \in SUBSET Optional : Cardinality(X) <= MaxNodes - 1}}
+                f \in PicksOf(S), e \in {x \in ZmdExtras : x = <<>> \/ (Cardinality(S) <= 2 /\ x \notin SigOrderExtras)
+                                                                      \/ Cardinality(S) <= 1}} :
+           S \in {X \in SUBSET Optional : Cardinality(X) <= MaxNodes - 1 /\ NodeSetOk(X)}}
 =============================================================================
